@@ -114,7 +114,7 @@ def opaque_leaves(t):
         if isinstance(x, Ite):
             rec(x.c), rec(x.a), rec(x.b)
             return
-        if isinstance(x, Op) and x.op in EVAL_OPS:
+        if isinstance(x, Op) and (x.op in EVAL_OPS or built_sequence(x)):
             for a in x.args:
                 rec(a)
             return
@@ -122,6 +122,19 @@ def opaque_leaves(t):
             out.append(x)
     rec(t)
     return out
+
+
+def built_sequence(x):
+    """int.to_bytes(...) and list()/tuple()/indexing of it: evaluate() computes these from their integer argument"""
+    if not isinstance(x, Op):
+        return False
+    if x.op == "m:to_bytes":
+        return True
+    if x.op in ("list", "tuple_of") and len(x.args) == 1:
+        return built_sequence(x.args[0])
+    if x.op == "getitem" and len(x.args) == 2:
+        return built_sequence(x.args[0])
+    return False
 
 
 EVAL_OPS = {"and", "or", "not", "floordiv", "mod", "lshift", "rshift", "bitand", "bitor", "bitxor",
